@@ -192,11 +192,42 @@ struct ShardResult {
     log: String,
 }
 
-fn run_shards(cmds: Vec<Command>, log_prefix: &str, out_dir: &str) -> Vec<ShardResult> {
+fn run_shards(cmds: Vec<Command>, log_prefix: &str, out_dir: &str, wall_secs: u64) -> Vec<ShardResult> {
+    // a stage that overruns its wall budget is killed: inconclusive, never a verdict
+    let pids: std::sync::Arc<std::sync::Mutex<Vec<i32>>> = Default::default();
+    let done = std::sync::Arc::new(std::sync::atomic::AtomicBool::new(false));
+    {
+        let (pids, done) = (pids.clone(), done.clone());
+        std::thread::spawn(move || {
+            let mut waited = 0;
+            while waited < wall_secs * 10 {
+                std::thread::sleep(std::time::Duration::from_millis(100));
+                if done.load(std::sync::atomic::Ordering::Relaxed) {
+                    return;
+                }
+                waited += 1;
+            }
+            for p in pids.lock().unwrap().iter() {
+                unsafe {
+                    // the whole process group: cargo/miri spawn grandchildren
+                    libc::kill(-*p, libc::SIGKILL);
+                    libc::kill(*p, libc::SIGKILL);
+                }
+            }
+        });
+    }
     let mut children = vec![];
     for (i, mut c) in cmds.into_iter().enumerate() {
         c.stdout(Stdio::piped()).stderr(Stdio::piped());
-        children.push((i, c.spawn()));
+        {
+            use std::os::unix::process::CommandExt;
+            c.process_group(0);
+        }
+        let ch = c.spawn();
+        if let Ok(ch) = &ch {
+            pids.lock().unwrap().push(ch.id() as i32);
+        }
+        children.push((i, ch));
     }
     let mut res = vec![];
     for (i, ch) in children {
@@ -219,6 +250,7 @@ fn run_shards(cmds: Vec<Command>, log_prefix: &str, out_dir: &str) -> Vec<ShardR
             }
         }
     }
+    done.store(true, std::sync::atomic::Ordering::Relaxed);
     res
 }
 
@@ -251,7 +283,7 @@ pub fn run(ctx: &Ctx) -> i32 {
             c
         })
         .collect();
-    let res = run_shards(cmds, &format!("c17-asan-s{}", ctx.seed), &out_dir);
+    let res = run_shards(cmds, &format!("c17-asan-s{}", ctx.seed), &out_dir, if ctx.thorough() { 7200 } else { 900 });
     let mut totals: std::collections::BTreeMap<String, u64> = Default::default();
     for (i, r) in res.iter().enumerate() {
         acc.evals += 1;
@@ -261,6 +293,8 @@ pub fn run(ctx: &Ctx) -> i32 {
             for (k, v) in r.summary.as_ref().unwrap() {
                 *totals.entry(k.clone()).or_insert(0) += v.as_u64().unwrap_or(0);
             }
+        } else if r.signal == Some(libc::SIGKILL) {
+            acc.harness_errors.push(format!("sanitizer shard {i} exceeded its wall budget and was killed (see {})", r.log));
         } else {
             let text = std::fs::read_to_string(&r.log).unwrap_or_default();
             let first = text.lines().find(|l| l.contains("ERROR: AddressSanitizer") || l.contains("ERROR: LeakSanitizer") || l.contains("SUMMARY:")).unwrap_or("no sanitizer banner; see log").to_string();
@@ -277,11 +311,11 @@ pub fn run(ctx: &Ctx) -> i32 {
         c
     };
     // warm-up (builds once), then all shards in parallel
-    let warm = run_shards(vec![miri_cmd(0, 0)], &format!("c17-miri-warm-s{}", ctx.seed), &out_dir);
+    let warm = run_shards(vec![miri_cmd(0, 0)], &format!("c17-miri-warm-s{}", ctx.seed), &out_dir, 900);
     if warm[0].exit != Some(0) {
         acc.harness_errors.push(format!("Miri warm-up run failed (see {})", warm[0].log));
     } else {
-        let res = run_shards((0..shards).map(|i| miri_cmd(i, miri_cases)).collect(), &format!("c17-miri-s{}", ctx.seed), &out_dir);
+        let res = run_shards((0..shards).map(|i| miri_cmd(i, miri_cases)).collect(), &format!("c17-miri-s{}", ctx.seed), &out_dir, if ctx.thorough() { 7200 } else { 900 });
         for (i, r) in res.iter().enumerate() {
             acc.evals += 1;
             if r.exit == Some(0) && r.summary.is_some() {
